@@ -9,6 +9,8 @@ package server
 //@ ghost G_holds_accept_loop() bool
 //@ ghost G_holds_session_accept_loop() bool
 //@ ghost G_dead(x interface{}) bool
+//@ ghost G_closes(x interface{}) int
+//@ ghost G_isclosed(x interface{}) bool
 
 // ---- C15: one stalled peer cannot block other peers
 //@ func AcceptConnection
@@ -41,9 +43,15 @@ package server
 //@   modifies stream.*
 //@   trusted "goroutine serving one logical connection: runs concurrently with the accept loop and never touches the session's accept state; its call of multiplexToUpstream trivially meets the token precondition it requires itself"
 
+//@ go func reportsClosedS(c io.Closer) bool { _, ok := c.(streams.Closed); return ok && G_isclosed(c) }
 //@ func (ch *ConnectionHandler) multiplexToUpstream
 //@   property C02
 //@   requires !G_holds_session_accept_loop()                 :not_on_session_accept_loop
+// C17: when the handler of a logical connection returns (protocol selection failed, the target closed, the
+// copy ended) the multiplexed stream has been closed, so the peer sees end-of-stream after the data
+//@   property C17
+//@   requires multiplexChannel != nil
+//@   ensures !old(reportsClosedS(multiplexChannel)) ==> G_closes(multiplexChannel) >= old(G_closes(multiplexChannel)) + 1      :stream_closed_when_the_handler_returns
 
 // ===================================================================================================
 // C03: channel routing and exposure control
@@ -229,3 +237,10 @@ package server
 //@   safe
 //@   callsite smux.Server#1 (config *smux.Config) require config.MaxReceiveBuffer >= 4194304                    :shared_receive_budget_at_least_4MiB
 //@   callsite smux.Server#1 (config *smux.Config) require config.MaxFrameSize > 0 && config.MaxFrameSize <= 65535 && config.MaxFrameSize <= buffers.BufferSize      :frames_fit_the_copy_buffers
+
+//@ func (ch *ConnectionHandler) multiplexToUpstream$1
+//@   property C17
+//@   freevars multiplexChannel net.Conn
+//@   modifies G_closes(multiplexChannel), G_isclosed(multiplexChannel)
+//@   ensures multiplexChannel != nil && !old(reportsClosedS(multiplexChannel)) ==> G_closes(multiplexChannel) == old(G_closes(multiplexChannel)) + 1    :deferred_close_closes_an_open_stream
+//@   ensures G_closes(multiplexChannel) >= old(G_closes(multiplexChannel))
